@@ -23,13 +23,14 @@ structure State where
   opt : Drv.Optim.St := .none
   bn : Drv.Layers.St := {}
   t : Drv.Tensor.St := {}
+  tr : Drv.Train.St := {}
 
 def step (st : State) (line : String) : State × String :=
   let toks := (line.trimAscii.toString.splitOn " ").filter (· ≠ "")
   match toks with
   | [] => (st, "")
   | "data" :: rest => (st, Drv.Data.run rest)
-  | "train" :: rest => (st, Drv.Train.run rest)
+  | "train" :: rest => let (w, o) := Drv.Train.runS st.tr rest; ({ st with tr := w }, o)
   | "mod" :: rest => let (w, o) := Drv.Modules.run st.mods rest; ({ st with mods := w }, o)
   | "opt" :: rest => let (w, o) := Drv.Optim.run st.opt rest; ({ st with opt := w }, o)
   | "bn" :: rest => let (w, o) := Drv.Layers.run st.bn rest; ({ st with bn := w }, o)
